@@ -171,6 +171,8 @@ def plan(S, prop, mode, tier, avoid):
         ny = nx if (chance(r, 0.4) or no_q2_rect) else r.randrange(1 if not no_n1 else 2, 25)
         cfg["q2"] = [nx, ny]
     nops = r.randrange(2, 13)
+    if tier == "thorough" and chance(r, 0.12):
+        nops = r.randrange(13, 40)          # thorough tier: longer histories
     ops = []
     explicit_seen = False
     last_npts = None
